@@ -364,7 +364,7 @@ pub fn run(ctx: &Ctx) -> i32 {
                     }
                     acc.states.insert(hsh);
                     if idx < 1 {
-                        acc.samples.push(json!({"k": t.k, "h": h, "mode": t.mode, "esis": t.esis, "decoded": ok}));
+                        acc.samples.push(json!({"k": t.k, "h": h, "mode": t.mode, "delivery": t.delivery, "symbols": t.esis.len(), "esis_head": &t.esis[..t.esis.len().min(24)], "decoded": ok}));
                     }
                     Ok(())
                 }
